@@ -164,10 +164,11 @@ Timeout(R, n) ==
                                     !.ps = IF hasLock THEN PrepSenders(ns, pv, ppv.x) ELSE {}])
 
 \* startTerm
+\* startTerm.  A node that is not in the committee of h gets a term that takes no part (no proposal, no timer, nothing handled)
 StartTerm(R, n, h, canFirst) ==
-  LET ns0 == FreshNS(h)
+  LET ns0 == [FreshNS(h) EXCEPT !.member = n \in Members(h)]
       R0 == [R EXCEPT !.ns = ns0, !.commit = "-"] IN
-  IF (h > 1 /\ ~canFirst) \/ LeaderM(h, 0) # n THEN R0
+  IF ~ns0.member \/ (h > 1 /\ ~canFirst) \/ LeaderM(h, 0) # n THEN R0
   ELSE LET b == SafeHead(R.proposed)
            R1 == [R0 EXCEPT !.proposed = SafeTail(@), !.ns.pp = {[v |-> 0, x |-> b, s |-> n, blk |-> b]}]
        IN Send(R1, [NoDigest EXCEPT !.k = "PP", !.to = Others(h, n), !.v = 0, !.x = b, !.blk = b])
@@ -192,7 +193,7 @@ Round1(fr, n, h, canFirst) ==
       msgs    == IF fr.cache.h = h THEN fr.cache.msgs ELSE <<>>
       cleared == [started EXCEPT !.cache = [h |-> fr.cache.h, msgs |-> IF fr.cache.h <= h THEN <<>> ELSE fr.cache.msgs]]
   IN FoldLeft(LAMBDA acc, m :
-                IF acc.ns.h # h THEN acc
+                IF acc.ns.h # h \/ ~acc.ns.member THEN acc
                 ELSE LET R == TermHandle(ToR(acc), n, m)
                          a1 == FromR(acc, R)
                      IN IF R.commit = "-" THEN a1 ELSE Round2(a1, n, h + 1),
